@@ -252,16 +252,21 @@ Lemma kill_cases t late :
   (proc t = Running /\ t_kill Generic late t = t_write Generic (firstn late (todo t)) (skipn late (todo t)) Killed t).
 Proof. unfold t_kill. destruct (proc t); auto. Qed.
 
+(* record updates are computed by call-by-value on the explicit constructor (a [simpl] on the unfolded nest of
+   updates duplicates the trial record exponentially: minutes and tens of GB) *)
+Ltac trcbv := cbv beta iota delta [t_pause t_stop drop_window take_nrf t_kill t_write set_fin set_mark set_cstat
+                                   log todo proc mark seen cstat nrf cur dcur base fin past].
 (* STOP on a trial that is not completed: stop_trial *)
 Lemma tinv_stop t p p' late :
   tinv t p -> fin t = Live -> tinv (set_fin Decided (t_stop Generic late t)) p'.
 Proof.
-  intros H Hl. pose proof (live_pre_ok _ _ H Hl) as Hpre. revert H Hpre.
-  unfold t_stop, t_kill, t_write, set_fin, set_mark, tinv, pre_ok, em.
-  destruct t as [lg td pr mk sn cs nr cu dc bs fn pa]; simpl in *. subst fn.
-  intros (Hb & Hs & Hc & Hso & Hcs & Hpt & Hpa & (Hm & Hse & Hd)) (Hpl & Hpd). subst mk.
-  assert (cs <> Paused) by (intro; specialize (Hcs H); congruence).
-  destruct pr; simpl; repeat split; auto; try congruence; try lia.
+  intros H Hl. pose proof (live_pre_ok _ _ H Hl) as Hpre.
+  destruct t as [lg td pr mk sn cs nr cu dc bs fn pa]. simpl in Hl. subst fn.
+  unfold tinv, pre_ok, em in H, Hpre. simpl in H, Hpre.
+  destruct H as (Hb & Hs & Hc & Hso & Hcs & Hpt & Hpa & (Hm & Hse & Hd)). destruct Hpre as (Hpl & Hpd). subst mk.
+  assert (cs <> Paused) by (intro H; specialize (Hcs H); congruence).
+  unfold tinv, pre_ok, em.
+  destruct pr; trcbv; simpl; repeat split; auto; try congruence; try lia.
   all: try (rewrite ?app_length; lia).
   all: try (rewrite skipn_app_le by lia).
   all: try (rewrite ?app_length; lia).
@@ -273,11 +278,12 @@ Qed.
 Lemma tinv_pause t p p' late :
   tinv t p -> fin t = Live -> tinv (set_fin Decided (t_pause Generic late t)) p'.
 Proof.
-  intros H Hl. pose proof (live_pre_ok _ _ H Hl) as Hpre. revert H Hpre.
-  unfold t_pause, drop_window, t_kill, t_write, set_fin, set_mark, set_cstat, tinv, pre_ok, em.
-  destruct t as [lg td pr mk sn cs nr cu dc bs fn pa]; simpl in *. subst fn.
-  intros (Hb & Hs & Hc & Hso & Hcs & Hpt & Hpa & (Hm & Hse & Hd)) (Hpl & Hpd). subst mk.
-  destruct pr; simpl; repeat split; auto; try congruence; try lia.
+  intros H Hl. pose proof (live_pre_ok _ _ H Hl) as Hpre.
+  destruct t as [lg td pr mk sn cs nr cu dc bs fn pa]. simpl in Hl. subst fn.
+  unfold tinv, pre_ok, em in H, Hpre. simpl in H, Hpre.
+  destruct H as (Hb & Hs & Hc & Hso & Hcs & Hpt & Hpa & (Hm & Hse & Hd)). destruct Hpre as (Hpl & Hpd). subst mk.
+  unfold tinv, pre_ok, em.
+  destruct pr; trcbv; simpl; repeat split; auto; try congruence; try lia.
   all: try (rewrite ?app_length; lia).
   all: try (rewrite skipn_app_le by lia).
   all: try (rewrite ?app_length; lia).
@@ -773,11 +779,12 @@ Qed.
 Lemma sinv_pause t p p' late :
   sinv t p -> fin t = Live -> sinv (set_fin Decided (t_pause Sim late t)) p'.
 Proof.
-  intros H Hl. pose proof (s_live_pre_ok _ _ H Hl) as Hpre. revert H Hpre.
-  unfold t_pause, drop_window, take_nrf, t_kill, t_write, set_fin, set_mark, set_cstat, sinv, pre_ok, em.
-  destruct t as [lg td pr mk sn cs nr cu dc bs fn pa]; simpl in *. subst fn.
-  intros (Hb & Hc & Hpt & Hpa & (Hm & Hd)) (Hpl & Hpd).
-  destruct pr; simpl; repeat split; auto; try congruence; try lia.
+  intros H Hl. pose proof (s_live_pre_ok _ _ H Hl) as Hpre.
+  destruct t as [lg td pr mk sn cs nr cu dc bs fn pa]. simpl in Hl. subst fn.
+  unfold sinv, pre_ok, em in H, Hpre. simpl in H, Hpre.
+  destruct H as (Hb & Hc & Hpt & Hpa & (Hm & Hd)). destruct Hpre as (Hpl & Hpd).
+  unfold sinv, pre_ok, em.
+  destruct pr; trcbv; simpl; repeat split; auto; try congruence; try lia.
   all: try (rewrite ?app_length; lia).
   all: try (rewrite skipn_app_le by lia).
   all: try (rewrite ?app_length; lia).
@@ -787,11 +794,12 @@ Qed.
 Lemma sinv_stop t p p' late :
   sinv t p -> fin t = Live -> sinv (set_fin Decided (t_stop Sim late t)) p'.
 Proof.
-  intros H Hl. pose proof (s_live_pre_ok _ _ H Hl) as Hpre. revert H Hpre.
-  unfold t_stop, drop_window, take_nrf, t_kill, t_write, set_fin, set_mark, sinv, pre_ok, em.
-  destruct t as [lg td pr mk sn cs nr cu dc bs fn pa]; simpl in *. subst fn.
-  intros (Hb & Hc & Hpt & Hpa & (Hm & Hd)) (Hpl & Hpd).
-  destruct pr; simpl; repeat split; auto; try congruence; try lia.
+  intros H Hl. pose proof (s_live_pre_ok _ _ H Hl) as Hpre.
+  destruct t as [lg td pr mk sn cs nr cu dc bs fn pa]. simpl in Hl. subst fn.
+  unfold sinv, pre_ok, em in H, Hpre. simpl in H, Hpre.
+  destruct H as (Hb & Hc & Hpt & Hpa & (Hm & Hd)). destruct Hpre as (Hpl & Hpd).
+  unfold sinv, pre_ok, em.
+  destruct pr; trcbv; simpl; repeat split; auto; try congruence; try lia.
   all: try (rewrite ?app_length; lia).
   all: try (rewrite skipn_app_le by lia).
   all: try (rewrite ?app_length; lia).
